@@ -183,6 +183,21 @@ func readStreamEach(src string, c cfg, r *cutReader) (o outcome) {
 	return
 }
 
+// evalIn evaluates a harness-written form in the configured scope. The form
+// itself is read with the default reader configuration (under *read-base* 36
+// the word "read" would be a number).
+func evalIn(s *slip.Scope, form string) (result slip.Object, err *lisp.Err) {
+	defer func() {
+		if rec := recover(); rec != nil {
+			err = lisp.ErrFromRecovered(rec)
+			result = nil
+		}
+	}()
+	code := slip.ReadString(form, slip.NewScope())
+	result = code.Eval(s, nil)
+	return
+}
+
 // lispRead: (read <stream>) once, on a string stream (seekable) or on an
 // input stream wrapping a plain io.Reader.
 func lispRead(src string, c cfg, seekable bool, r *cutReader) (o outcome) {
@@ -193,7 +208,7 @@ func lispRead(src string, c cfg, seekable bool, r *cutReader) (o outcome) {
 	} else {
 		s.Let(slip.Symbol("c02-in"), slip.NewInputStream(r))
 	}
-	val, err := lisp.EvalIn(s, "(read c02-in)")
+	val, err := evalIn(s, "(read c02-in)")
 	if err != nil {
 		o.err = err
 		return
@@ -210,7 +225,7 @@ func readFromString(src string, off int, c cfg, preserve bool) (obj *cv, pos int
 	if preserve {
 		form = "(multiple-value-list (read-from-string c02-s t nil :preserve-whitespace t))"
 	}
-	val, e := lisp.EvalIn(s, form)
+	val, e := evalIn(s, form)
 	if e != nil {
 		return nil, 0, e
 	}
